@@ -65,6 +65,43 @@ func Classify(doc *ast.QueryDocument, op *ast.OperationDefinition, st Store) []s
 	if op.VariableDefinitions.ForName("id") != nil {
 		add("variable-named-id")
 	}
+	knownID := func(f *ast.Field) bool {
+		a := f.Arguments.ForName("id")
+		if a == nil || a.Value == nil || a.Value.Kind != ast.StringValue {
+			return false
+		}
+		for t, objs := range st {
+			if t == "Query" || t == "Mutation" {
+				continue
+			}
+			if _, ok := objs[a.Value.Raw]; ok {
+				return true
+			}
+		}
+		return false
+	}
+	// directNode: selections made on the Node returned by the gateway's own `node` field, outside any
+	// concrete type condition
+	var directNode func(ss ast.SelectionSet, seen map[string]bool)
+	directNode = func(ss ast.SelectionSet, seen map[string]bool) {
+		for _, sel := range ss {
+			switch sel := sel.(type) {
+			case *ast.Field:
+				if sel.Name != "id" || (sel.Alias != "" && sel.Alias != "id") {
+					add("gateway-node-direct-selection")
+				}
+			case *ast.InlineFragment:
+				if sel.TypeCondition == "" || sel.TypeCondition == "Node" {
+					directNode(sel.SelectionSet, seen)
+				}
+			case *ast.FragmentSpread:
+				if d := doc.Fragments.ForName(sel.Name); d != nil && !seen[sel.Name] && d.TypeCondition == "Node" {
+					seen[sel.Name] = true
+					directNode(d.SelectionSet, seen)
+				}
+			}
+		}
+	}
 	var walk func(ss ast.SelectionSet, top bool, seen map[string]bool)
 	walk = func(ss ast.SelectionSet, top bool, seen map[string]bool) {
 		for _, sel := range ss {
@@ -74,7 +111,10 @@ func Classify(doc *ast.QueryDocument, op *ast.OperationDefinition, st Store) []s
 					add("alias-id-on-non-id-field")
 				}
 				if top && sel.Name == "node" {
-					add("gateway-node-field")
+					if !knownID(sel) {
+						add("gateway-node-unknown-id")
+					}
+					directNode(sel.SelectionSet, map[string]bool{})
 				}
 				walk(sel.SelectionSet, false, seen)
 			case *ast.InlineFragment:
@@ -187,4 +227,28 @@ func (fc *FedCase) Classifier() string {
 		return "unclassified"
 	}
 	return strings.Join(fc.Classes, "+")
+}
+
+// ShrinkFed minimises the query of a failing federated input (same federation, data and variables).
+func ShrinkFed(c *Ctx, in FedInput, fc *FedCase) (FedInput, *FedCase) {
+	best, bestFc := in, fc
+	q := ShrinkQuery(in.Query, func(q string) bool {
+		in2 := in
+		in2.Query = q
+		fc2, err := RunFed(c, in2, 5*time.Second)
+		if err != nil || fc2.Invalid != "" || Canon(fc2.Want) != Canon(fc2.WantGo) {
+			return false
+		}
+		// stay outside the regions of open known findings: shrinking must not turn one failure into another
+		if InKnownRegion(fc.Classes) == "" && InKnownRegion(fc2.Classes) != "" {
+			return false
+		}
+		if ok, _ := fc2.Status(); ok {
+			return false
+		}
+		best, bestFc = in2, fc2
+		return true
+	}, 400)
+	_ = q
+	return best, bestFc
 }
